@@ -244,7 +244,16 @@ fn run_op(op: &str, spec: &str, input: &str) -> String {
                 .map(|(n, d)| format!("{}={}", dots(n), dots(d)))
                 .collect::<Vec<_>>()
                 .join(";");
-            format!("cells {} | esc {} | css {}", cells, escd, css)
+            let (_tl, br) = cb.bounds().unwrap_or((Cell::new(0, 0), Cell::new(0, 0)));
+            format!(
+                "cells {} | esc {} | css {} | L {} | B {},{}",
+                cells,
+                escd,
+                css,
+                dots(&cb.verif_legend_css()),
+                br.x,
+                br.y
+            )
         }
         "spans" => {
             let cb = CellBuffer::from(input);
